@@ -160,14 +160,22 @@ func c01Extra(c *core.Ctx, spec *refcodec.Spec) {
 // C04 static half --------------------------------------------------------------------------------
 
 type staticCase struct {
-	Msg  string `json:"msg"`
-	Slot string `json:"slot,omitempty"`
-	What string `json:"what"`
+	Msg   string `json:"msg"`
+	Slot  string `json:"slot,omitempty"`
+	What  string `json:"what"`
+	Shape bool   `json:"shape_only,omitempty"` // code-shape oddity (not a table difference)
 }
 
 func c04Static(c *core.Ctx, spec *refcodec.Spec) {
 	c.Begin("static", "bind", "structure of the generated codecs vs the pinned tables")
 	for _, v := range c04StaticDiff(spec) {
+		if v.Shape {
+			// the code does not look like generator output at this place. That is not by itself a difference in
+			// behaviour (a hand-added redundant check, a refactored read): it is surfaced in the evidence and left to
+			// the dynamic half, which executes the real code against the reference codec on every slot and length.
+			c.Seen("static_shape_oddities_not_asserted", v.Msg+"."+v.Slot+": "+v.What)
+			continue
+		}
 		c.FailCase("static|"+v.Msg+"."+v.Slot+"|"+v.What, fmt.Sprintf("generated codec of %s departs from the pinned table at %s: %s", v.Msg, v.Slot, v.What), "static", v)
 	}
 	c.Add("programs", int64(2*len(spec.Messages)))
@@ -203,7 +211,7 @@ func c04StaticDiff(spec *refcodec.Spec) []staticCase {
 		}
 		for _, o := range cm.Oddities {
 			if !accepted[o] {
-				out = append(out, staticCase{Msg: sm.Name, What: "unexpected code shape: " + o})
+				out = append(out, staticCase{Msg: sm.Name, What: "unexpected code shape: " + o, Shape: !strings.Contains(o, "emission order") && !strings.Contains(o, "dispatch") && !strings.Contains(o, "has no case") && !strings.Contains(o, "identifier")})
 			}
 		}
 		if cm.Family != sm.Family || cm.MsgType != sm.MsgType {
@@ -269,12 +277,12 @@ func c04StaticDiff(spec *refcodec.Spec) []staticCase {
 				wantW = append(wantW, val)
 			}
 			if strings.Join(d.Reads, " ; ") != strings.Join(wantR, " ; ") {
-				out = append(out, staticCase{Msg: sm.Name, Slot: s.Name, What: "decoder reads " + strings.Join(d.Reads, " ; ") + ", expected " + strings.Join(wantR, " ; ")})
+				out = append(out, staticCase{Msg: sm.Name, Slot: s.Name, What: "decoder reads " + strings.Join(d.Reads, " ; ") + ", expected " + strings.Join(wantR, " ; "), Shape: true})
 			}
 			gotW := strings.Join(d.Writes, " ; ")
 			// the encoder may write a one-octet value with or without taking its address
 			if gotW != strings.Join(wantW, " ; ") && strings.ReplaceAll(gotW, "&a.", "a.") != strings.ReplaceAll(strings.Join(wantW, " ; "), "&a.", "a.") {
-				out = append(out, staticCase{Msg: sm.Name, Slot: s.Name, What: "encoder writes " + gotW + ", expected " + strings.Join(wantW, " ; ")})
+				out = append(out, staticCase{Msg: sm.Name, Slot: s.Name, What: "encoder writes " + gotW + ", expected " + strings.Join(wantW, " ; "), Shape: true})
 			}
 		}
 	}
